@@ -297,11 +297,13 @@ type VTimer struct {
 func (t *VTimer) Now() time.Time { t.n.logf("NOW %d", t.now.UnixNano()); return t.now }
 func (t *VTimer) Reset(h uint32, v byte, d time.Duration) {
 	t.n.logf("TRESET %d %d %d", h, v, int64(d))
+	t.n.obs14("TRESET %d %d %d", h, v, int64(d))
 	t.n.mon.timerReset(t.n, h, v, d)
 	t.h, t.v, t.deadline, t.armed = h, v, t.now.Add(d), true
 }
 func (t *VTimer) Extend(d time.Duration) {
 	t.n.logf("TEXTEND %d", int64(d))
+	t.n.obs14("TEXTEND %d", int64(d))
 	t.n.mon.effect(t.n, "TEXTEND")
 	t.deadline = t.deadline.Add(d)
 }
@@ -337,6 +339,7 @@ type node struct {
 	mon     *monitor
 	tr      *tracker // per-node monitor state
 	started bool
+	s14     *[]string // C14: normalised observables (payload kinds, relative timestamps, timer durations)
 	muted   int
 	opIdx   int
 	inc     uint64 // TimestampIncrement
@@ -346,6 +349,33 @@ type node struct {
 	lastVerified []uint64
 	rejectVerify map[string]bool // kinds of Verify* callbacks that reject (probes)
 	failPre, failBlk int // number of upcoming ProcessPreBlock / ProcessBlock failures
+}
+
+func (n *node) obs14(f string, a ...any) {
+	if n.s14 != nil {
+		*n.s14 = append(*n.s14, fmt.Sprintf("%d ", n.id)+fmt.Sprintf(f, a...))
+	}
+}
+
+// rel renders a payload with absolute timestamps made relative to the clock origin and nonces / content hashes
+// masked (they differ between two executions because the nonce comes from crypto/rand)
+func (p *Payload) rel(epoch int64) string {
+	hd := fmt.Sprintf("%d %d %d %d", int(p.T), p.Hgt, p.V, p.Idx)
+	switch v := p.Body.(type) {
+	case chView:
+		return fmt.Sprintf("%s nv=%d r=%d ts=%d", hd, v.nv, byte(v.reason), int64(v.ts)-epoch)
+	case prepReq:
+		return fmt.Sprintf("%s ts=%d ntx=%d", hd, int64(v.ts)-epoch, len(v.hashes))
+	case recReq:
+		return fmt.Sprintf("%s ts=%d", hd, int64(v.ts)-epoch)
+	case *recMsg:
+		s := hd + fmt.Sprintf(" k=%d", len(v.ps))
+		for _, q := range v.ps {
+			s += " [" + q.rel(epoch) + "]"
+		}
+		return s
+	}
+	return hd
 }
 
 func (n *node) logf(f string, a ...any) {
@@ -440,7 +470,7 @@ func newNode(id int, vals []dbft.PublicKey, amev int64, w *bufio.Writer, pre ...
 			var r []dbft.Transaction[H]
 			s := fmt.Sprint(k)
 			for i := 0; i < k; i++ {
-				t := Tx(uint64(n.height)*10 + uint64(i))
+				t := Tx(uint64(n.height)*10 + uint64(i) + 1000*uint64(n.id%3)) // pools differ between proposers
 				if n.usePool {
 					t = Tx(n.pool[i])
 				}
@@ -497,6 +527,7 @@ func newNode(id int, vals []dbft.PublicKey, amev int64, w *bufio.Writer, pre ...
 		dbft.WithVerifyCommit[H](func(p dbft.ConsensusPayload[H]) error { if n.rejectVerify["VCOMMIT"] || (n.flaky && n.rng.Intn(40) == 0) { n.logf("VCOMMIT %s 0", p.(*Payload).out()); return fmt.Errorf("rejected") }; n.logf("VCOMMIT %s 1", p.(*Payload).out()); return nil }),
 		dbft.WithBroadcast[H](func(p dbft.ConsensusPayload[H]) {
 			n.logf("BCAST %s", p.(*Payload).out())
+			n.obs14("BCAST %s", p.(*Payload).rel(n.epoch))
 			n.mon.broadcast(n, p.(*Payload))
 			c := *p.(*Payload)
 			n.out = append(n.out, &c)
